@@ -487,6 +487,13 @@ def run_c15(tape, tier, res):
     res.digest = digest_of([[(e["pt"], e["prob"], e["lines"]) for e in U], shapes, [v.as_dict() for v in res.violations]])
 
 
+def extra_phase(tier, base_seed, prop="C08"):
+    if prop != "C08":
+        return {}
+    from .. import bigworld
+    return bigworld.resume_phase(tier, base_seed)
+
+
 def run_one(tape, tier, prop):
     res = RunResult()
     if prop == "C08":
